@@ -1104,7 +1104,12 @@ def gen_proto(utils, em_state, st_fns):
         for name, exprs in proto_lets(text).items():
             if name not in known and len(exprs) == 1:
                 em.lazy_lets[name] = exprs[0]
-        binders = " ".join("(%s : %s)" % (n, 'bool' if t == 'bool' else 'Z') for n, t in vars_)
+        # a variable that has the name of a State function (`epoch`) must not shadow it in the generated term
+        bname = {n: (n + '_v' if n in sigs else n) for n, _ in vars_}
+        for n, b in bname.items():
+            if b != n:
+                env['$val:' + n] = b
+        binders = " ".join("(%s : %s)" % (bname[n], 'bool' if t == 'bool' else 'Z') for n, t in vars_)
 
         def tr(src, expected):
             src = src.replace('State::from_raw', 'Self::from_raw')
@@ -1151,6 +1156,103 @@ def gen_proto(utils, em_state, st_fns):
         if fname == 'dispose_general_node':
             s += "Definition P_%s_depths %s : list Z := [%s].\n" % (short, binders, "; ".join(rec))
         s += "(* not translated here: %s *)\n\n" % ("; ".join(skipped) if skipped else "-")
+    return s
+
+
+
+def gen_ebrproto(internal, em_epoch, ep_fns):
+    """Decisions of Local::{pin, unpin, repin_without_collect, schedule_collection, incr_advance,
+    incr_manual_collection, release_handle} and Global::{try_advance, collect}: every if/while condition in textual
+    order and the epoch values they compute, over the thread-local fields (F_<field>), the global epoch word GEPOCH and
+    a participant's announcement word LEPOCH (Epoch data words, through the generated Epoch functions)."""
+    lfns = get_fns(get_impl(internal, r"impl\s+Local"))
+    gfns = get_fns(get_impl(internal, r"impl\s+Global"))
+    consts = {c[0]: c for c in get_consts(internal)}
+    sigs = {n: (v[0], v[1]) for n, v in ep_fns.items()}
+    FIELDS = ['guard_count', 'handle_count', 'advance_count', 'prev_epoch', 'pin_count', 'manual_count', 'must_collect', 'collecting']
+    FTYPE = {'prev_epoch': 'Self', 'must_collect': 'bool', 'collecting': 'bool'}
+
+    def prep(body):
+        t = _strip_macros(body)
+        t = re.sub(r"debug_assert!\s*\([^;]*\);", "", t)
+        t = re.sub(r"\bunsafe\s*\{\s*(\w+)\s*\}", r"\1", t)
+        for f in FIELDS:
+            t = re.sub(r"\bself\s*\.\s*%s\s*\.\s*get\s*\(\s*\)" % f, "F_" + f, t)
+        t = re.sub(r"\bself\s*\.\s*global\s*\(\s*\)\s*\.\s*epoch\s*\.\s*load\s*\([^()]*\)", "GEPOCH", t)
+        t = re.sub(r"\bself\s*\.\s*epoch\s*\.\s*load\s*\([^()]*\)", "GEPOCH" if False else "LEPOCH", t)
+        t = re.sub(r"\blocal\s*\.\s*epoch\s*\.\s*load\s*\([^()]*\)", "LEPOCH", t)
+        t = t.replace('Epoch::starting', 'Self::starting')
+        return t
+
+    def emitter(extra_env):
+        em = Emitter({}, sigs, 'usize', ['data'], fn_prefix='e_')
+        em.all_consts = dict(em_epoch.all_consts)
+        em.all_consts.update({n: (c[1], c[2]) for n, c in consts.items()})
+        em.bodies.update(ep_fns)
+        em.defined = set(ep_fns)
+        em.emitted = set(ep_fns)
+        for need in ('COUNTS_BETWEEN_ADVANCE', 'COLLECTS_TRIALS', 'MANUAL_EVENTS_BETWEEN_COLLECT'):
+            em.consts[need] = 'usize'
+        return em
+
+    s = HEADER % "src/ebr_impl/internal.rs (Local / Global: the decisions of the EBR core)" + "Require Import Params EpochW.\n\n"
+    s += ("(* F_<field> = the value of the thread-local Cell <field>; GEPOCH = the word loaded from the global epoch;\n"
+          "   LEPOCH = the word loaded from a participant's announcement; Epoch words through Gen/EpochW.v *)\n\n")
+    SPEC = [
+        ('try_advance', gfns, 'adv', [('global_epoch', 'Self'), ('LEPOCH', 'Self')], ['new_epoch']),
+        ('pin', lfns, 'pin', [('guard_count', 'usize'), ('GEPOCH', 'Self'), ('global_epoch', 'Self'), ('F_prev_epoch', 'Self')], ['new_epoch']),
+        ('unpin', lfns, 'unpin', [('guard_count', 'usize'), ('F_collecting', 'bool'), ('F_must_collect', 'bool'), ('F_handle_count', 'usize')], []),
+        ('repin_without_collect', lfns, 'repin', [('LEPOCH', 'Self'), ('GEPOCH', 'Self')], ['global_epoch']),
+        ('schedule_collection', lfns, 'sched', [('F_collecting', 'bool'), ('F_guard_count', 'usize')], []),
+        ('incr_advance', lfns, 'incadv', [('F_advance_count', 'usize')], ['advance_count']),
+        ('incr_manual_collection', lfns, 'incman', [('F_manual_count', 'usize')], ['manual_count']),
+        ('release_handle', lfns, 'relh', [('F_guard_count', 'usize'), ('F_handle_count', 'usize')], []),
+    ]
+    for fname, table, short, vars_, lets_wanted in SPEC:
+        if fname not in table:
+            raise TranslateError("internal.rs: fn %s not found" % fname)
+        text = prep(table[fname][2])
+        em = emitter(None)
+        env = {n: t for n, t in vars_}
+        lets = proto_lets(text)
+        # the function's own `let guard_count = self.guard_count.get();` style bindings name a field value
+        for name, exprs in lets.items():
+            if name in env:
+                continue
+            exprs = [e for e in exprs if not re.match(r"(loop|match|unsafe|while|for)\b", e)]
+            lets[name] = exprs
+            if len(exprs) == 1:
+                em.lazy_lets[name] = exprs[0]
+        binders = " ".join("(%s : %s)" % (n, 'bool' if t == 'bool' else 'Z') for n, t in vars_)
+        conds = []
+        for kind, src in proto_conds(text):
+            if src.startswith('cfg!') or src.startswith('let '):
+                continue
+            if kind == 'break' and re.fullmatch(r"\w+", src):
+                continue
+            try:
+                v, _ = em.emit(P(tokenize(src)).parse_expr(), env, 'bool')
+            except TranslateError as ex:
+                raise TranslateError("%s: condition `%s`: %s" % (fname, src, ex))
+            conds.append(v)
+        s += "(* ---- %s *)\n" % fname
+        s += "Definition E_%s_conds %s : list bool := [%s].\n" % (short, binders, "; ".join(conds))
+        for ln in lets_wanted:
+            if not lets.get(ln):
+                raise TranslateError("%s: local `%s` not found" % (fname, ln))
+            # the first binding in textual order
+            v, _ = em.emit(P(tokenize(lets[ln][0])).parse_expr(), env, 'usize')
+            s += "Definition E_%s_%s %s : Z := %s.\n" % (short, ln, binders, v)
+        s += "\n"
+    # collect: the number of conditional pops
+    if 'collect' not in gfns:
+        raise TranslateError("internal.rs: fn collect not found")
+    m = re.search(r"for\s+_\s+in\s+0\s*\.\.\s*((?:\w+\s*::\s*)*\w+)\s*\{", prep(gfns['collect'][2]))
+    if not m:
+        raise TranslateError("collect: the loop over the conditional pops has an unexpected shape")
+    em = emitter(None)
+    s += "(* ---- collect: `for _ in 0..%s` *)\n" % m.group(1)
+    s += "Definition E_collect_trials : Z := %s.\n" % em.emit(P(tokenize(m.group(1))).parse_expr(), {}, 'usize')[0]
     return s
 
 
@@ -1393,6 +1495,13 @@ def gen(repo):
         failed['EpochW.v'] = str(ex)
     except (NameError, KeyError, UnboundLocalError) as ex:
         failed['EpochW.v'] = 'depends on a part of the source that could not be translated (%s)' % ex
+    # ---------------- EbrProtoW.v : the decisions of the EBR core (internal.rs), function by function
+    try:
+        files['EbrProtoW.v'] = gen_ebrproto(internal, eme, ep_fns)
+    except TranslateError as ex:
+        failed['EbrProtoW.v'] = str(ex)
+    except (NameError, KeyError, UnboundLocalError) as ex:
+        failed['EbrProtoW.v'] = 'depends on a part of the source that could not be translated (%s)' % ex
     # ---------------- OrderW.v : the memory orderings the source uses, per file and kind of atomic access.
     try:
         # Every model is sequentially consistent; what entitles it to be is the set of orderings and fences of the
